@@ -67,14 +67,15 @@ ASSUMPTIONS = [
 EXPECTED_PROBES = {
     'C04': ['alf_names', 'colvec', 'no_clusters_file', 'wmi_created', 'second_load', 'nonmonotonic',
             'sparse_templates', 'raw_extra_channels', 'poisoned', 'listing:shuffled', 'nan_template',
+            'inf_of_both_signs_in_one_file',
             'alf_times_without_samples'],
     'C05': ['sparse', 'dense', 'neighbourhood_bites', 'multi_shank', 'threshold_bites',
             'explicit_channels', 'minus_one_column', 'signal_free_column'],
     'C06': ['row_table', 'unknown_channel', 'empty_spike_list', 'waveform_route', 'tf_row_table',
             'unsorted_spikes'],
     'C08': ['multi_template_cluster', 'empty_id', 'undo', 'dirty_reload', 'highest_template_unused',
-            'single_spike_cluster'],
-    'C09': ['empty_highest_id', 'curated', 'depths', 'zero_positive_part'],
+            'single_spike_cluster', 'tie_in_spike_counts'],
+    'C09': ['empty_highest_id', 'curated', 'depths', 'zero_positive_part', 'batch_boundary_size'],
     'C10': ['torn_metadata', 'torn_store', 'foreign_malformed', 'repeated_save', 'dirty_reload',
             'store_checked', 'string_with_delimiter', 'none_dropped'],
     'C03': ['torn_store', 'store_route', 'raw_fallback_route', 'non_stored_spike'],
@@ -204,6 +205,16 @@ def gen(rng, prop, tier):
                 ops.append({'op': 'dirty_reload'})
     elif prop == 'C09':
         p['amps'] = True
+        if rng.random() < (0.02 if big else 0.006):
+            # get_depths walks the spikes in batches of 50000: sizes around the batch bound
+            cfg['ns'] = ns = rng.choice([50000, 50001, 50002, 100001])
+            p['features'] = True
+            p['feature_rows'] = False
+            p['tfeatures'] = False
+            p['raw'] = False
+            cfg['raw'] = None
+            cfg['nloc_f'] = 2
+            cfg['npcs'] = 2
         if rng.random() < 0.7:
             p['features'] = True
             p['feature_rows'] = False
@@ -575,6 +586,8 @@ class DatasetWorld(object):
         if cfg['poison']:
             ctx.probe('poisoned')
             ctx.fault('poison_values')
+            if any(po['kind'] == 'mixed' and len(po.get('pos', [])) >= 2 for po in cfg['poison']):
+                ctx.probe('inf_of_both_signs_in_one_file')
 
     def q_traces(self, seed):
         ctx, m = self.ctx, self.model
@@ -855,6 +868,8 @@ class DatasetWorld(object):
             return
         t = op['t']
         sw = m.spike_waveforms
+        if np.asarray(sw.spike_ids).ndim == 0:
+            return
         stored = [int(s) for s in np.asarray(sw.spike_ids) if g.stemplates[int(s)] == t]
         if len(stored) < 2:
             return
@@ -935,8 +950,7 @@ class DatasetWorld(object):
             top = max(counts.values())
             dom = [t for t in tids if counts[t] == top]
             if len(dom) > 1:
-                ctx.skipped['tie-in-spike-counts'] += 1
-                continue
+                ctx.probe('tie_in_spike_counts')
             # channel lists (whitened space, default threshold) of every template involved
             lists = {}
             amb = False
@@ -949,21 +963,27 @@ class DatasetWorld(object):
             if amb:
                 ctx.skipped['ambiguous-channel-list'] += 1
                 continue
-            exp = np.zeros((cfg['nsw'], cfg['nc']))
             tot = float(sum(counts.values()))
-            for ch in lists[dom[0]]:
-                acc = np.zeros(cfg['nsw'])
-                for t in tids:
-                    if ch in lists[t]:
-                        acc += counts[t] * T[t][:, ch]
-                exp[:, ch] = acc / tot
             scale = max(float(np.abs(T[tids]).max()), 1e-300)
-            ctx.check(np.all(np.abs(data[c] - exp) <= 1e-6 * scale),
-                      'merged-cluster-waveform-not-weighted-mean',
+            exps = {}
+            for d0 in dom:   # a tie leaves the choice of the dominant template open
+                exp = np.zeros((cfg['nsw'], cfg['nc']))
+                for ch in lists[d0]:
+                    acc = np.zeros(cfg['nsw'])
+                    for t in tids:
+                        if ch in lists[t]:
+                            acc += counts[t] * T[t][:, ch]
+                    exp[:, ch] = acc / tot
+                exps[d0] = exp
+            match = [d0 for d0 in dom if np.all(np.abs(data[c] - exps[d0]) <= 1e-6 * scale)]
+            ctx.check(bool(match), 'merged-cluster-waveform-not-weighted-mean',
                       lambda: {'cluster': c, 'templates': tids, 'counts': counts,
-                               'dominant': dom[0], 'channels': sorted(lists[dom[0]]),
+                               'dominant_candidates': dom,
                                'bad_channels': np.nonzero(np.any(
-                                   np.abs(data[c] - exp) > 1e-6 * scale, axis=0))[0].tolist()})
+                                   np.abs(data[c] - exps[dom[0]]) > 1e-6 * scale,
+                                   axis=0))[0].tolist()})
+            exp = exps[match[0]]
+            dom = [match[0]]
             b = ctx.real('get_cluster_mean_waveforms', m.get_cluster_mean_waveforms, c,
                          unwhiten=False, owners=('C08',))
             chl = [int(x) for x in b.channel_ids]
@@ -1046,6 +1066,8 @@ class DatasetWorld(object):
             d = ctx.real('get_depths', m.get_depths, owners=('C09',))
             exp = R.depths()
             ctx.probe('depths')
+            if cfg['ns'] >= 50000:
+                ctx.probe('batch_boundary_size')
             if np.isnan(exp).any():
                 ctx.probe('zero_positive_part')
             ctx.check(d is not None and ref.close(d, exp, 1e-5, atol_scale=max(
@@ -1177,6 +1199,11 @@ class DatasetWorld(object):
         ids = np.asarray(sw.spike_ids)
         chs = np.asarray(sw.spike_channels)
         W = sw.waveforms
+        if ids.ndim == 0:
+            # a store holding exactly one spike: the loader squeezes that singleton dimension
+            # (DESIGN.md 5.2, degenerate sizes are outside the claimed domain)
+            ctx.skipped['single-spike-store-squeezed'] += 1
+            return
         ctx.check(ids.ndim == 1 and chs.ndim == 2 and chs.shape[0] == len(ids)
                   and tuple(W.shape) == (len(ids), cfg['nsw'], chs.shape[1]), 'store-shapes',
                   lambda: {'ids': list(ids.shape), 'channels': list(chs.shape),
@@ -1200,6 +1227,9 @@ class DatasetWorld(object):
             return
         rs = np.random.RandomState(op['seed'])
         sw = m.spike_waveforms
+        if sw is not None and np.asarray(sw.spike_ids).ndim == 0:
+            ctx.skipped['single-spike-store-squeezed'] += 1
+            return
         eps = float(np.finfo(self.A.dtype).eps) if self.A.dtype.kind == 'f' else 0.0
         if sw is not None and rs.rand() < 0.7:
             ids = np.asarray(sw.spike_ids)
